@@ -143,6 +143,17 @@ theorem written_isSome_iff (v off : Nat) : ∀ (rs : List Rng) (t p : Nat),
     · have hc' : r.covers off p = false := by simpa using hc
       simp [written, hc', ih]
 
+/-- **for every list, overlapping or not**: a position no range covers keeps the receiver's bit -/
+theorem scatterResult_outside_any (W raw v off : Nat) (rs : List Rng) (p : Nat) (hraw : raw < 2 ^ W)
+    (hfit : ∀ r ∈ rs, r.lo + r.len + off ≤ W) (hnc : rs.any (·.covers off p) = false) :
+    (scatterResult W raw v off rs).testBit p = raw.testBit p := by
+  have hm := maskBits_lt W off rs hfit
+  simp only [scatterResult, Nat.testBit_or, Nat.testBit_and, testBit_compl hm, testBit_maskBits,
+    testBit_scatterBits, scatterBit_not_covered v off rs 0 p hnc, hnc, Bool.or_false, Bool.not_false, Bool.and_true]
+  by_cases hp : p < W
+  · simp [hp]
+  · simp [hp, testBit_eq_false_of_lt hraw (by omega : W ≤ p)]
+
 /-- **the closed form is the reference write** for pairwise disjoint range lists -/
 theorem scatterResult_eq_writeSpec (W raw v off : Nat) (rs : List Rng) (hraw : raw < 2 ^ W)
     (hfit : ∀ r ∈ rs, r.lo + r.len + off ≤ W) (hd : pairwiseDisjoint rs = true) :
